@@ -82,3 +82,10 @@ package packagedeploy
 //@ func package-operator.run/internal/packages/internal/packagedeploy.(*DeploymentReconciler).Reconcile
 //@   sink Client.Create#1 requires [C16] lastGet() == 4
 //@   sink Reconcile$1:Client.Update#1 requires [C16] tplVal(arg1) == templateSpec
+
+//@ props C14
+// The ObjectSets whose slice references protect slices from garbage collection are found through the deployment's
+// spec.selector (what ObjectSets of the deployment are labelled to match), in the deployment's namespace.
+//@ func package-operator.run/internal/packages/internal/packagedeploy.(*DeploymentReconciler).listObjectSetsForDeployment
+//@   after LabelSelectorAsSelector#1 ghost depSelector() := result0
+//@   at Client.List#1 assert [C14] exists k int :: 0 <= k && k < len(varargs) && dyntype(varargs[k]) == typetag("sigs.k8s.io/controller-runtime/pkg/client.MatchingLabelsSelector") && asstruct("sigs.k8s.io/controller-runtime/pkg/client.MatchingLabelsSelector", varargs[k]).Selector == depSelector()
